@@ -1154,3 +1154,13 @@ package ring
 //@   nilable
 //@   havoc pol
 //@   ensures implies(isnil(err), n == announced(pol))
+
+// constructors whose results the abstract contracts above the ring layer treat as opaque
+//@ afunc NewRing
+//@   trusted opaque at the abstract level: a ring or an error
+
+//@ afunc NewNTTFriendlyPrimesGenerator
+//@   trusted opaque at the abstract level
+
+//@ afunc NTTFriendlyPrimesGenerator.NextDownstreamPrimes
+//@   trusted opaque at the abstract level: a list of primes or an error
